@@ -72,7 +72,9 @@ def _cache_accesses(w: FunctionInfo):
     # the cache is the closure variable that is both tested and subscripted
     tested = {a[3] for a in acc if a[0] == "test"}
     subs = {a[3] for a in acc if a[0] in ("load", "store")}
-    names = tested & subs
+    # the cache outlives the call: a closure variable of the wrapper, not one of its locals
+    local = {n.id for n in own_nodes(w.node) if isinstance(n, ast.Name) and isinstance(n.ctx, ast.Store)} | set(w.params)
+    names = (tested & subs) - local
     return names, [a for a in acc if a[3] in names]
 
 
